@@ -586,7 +586,7 @@ def cmd_check(args):
         print("VIOLATION property=%s replay=%s" % (prop.ID, path))
         return 1
     # clean: determinism cross-check
-    ncheck = 8 if tier == "quick" else max(8, min(200, agg["n"] // 100))
+    ncheck = 16 if tier == "quick" else max(16, min(400, agg["n"] // 100))
     ncheck = int(os.environ.get("VERIF_DETERMINISM_SAMPLE", ncheck))
     nd, derr = determinism_crosscheck(prop, base_seed, agg["digests"], ncheck)
     extra["determinism_reruns"] = nd
